@@ -4,6 +4,7 @@
 From Coq Require Import List NArith ZArith Bool.
 From BE Require Import Model.GoTypes Model.GoVal Model.Parsers Model.Index Model.RangeIdx
                        Proofs.RangeIdxProof Proofs.RangeHolderProof.
+From BE Require Gen.IdsGen Proofs.IndexCorrect Proofs.HoldersBuildInv Proofs.IndexCorrectHolders Proofs.NonVacuous.
 Import ListNotations.
 Local Open Scope Z_scope.
 
@@ -34,6 +35,46 @@ Theorem C06_between_interval : forall l h n, l < h ->
   parse_range OpBetween true (VSlice TSint64 n [VInt KI64 l; VInt KI64 h]) = POk (l, h).
 Proof. exact between_interval. Qed.
 
+(* END TO END (see Props/C05.v for the reading of the hypotheses): documents -> concrete builder with fields in
+   any container -> built index -> concrete retrieval reports exactly the satisfied conjunctions; for a
+   range field the hit rule is C06_range_hit_rule_* below, whether the expression was expanded into
+   discrete values (narrower than the threshold) or kept as an interval of the piece list. *)
+Theorem C06_any_container_index_exact : forall kind pol thr parsers cfgl st0 ds st os q,
+  HoldersBuildInv.config_fields (new_builder kind pol thr parsers) cfgl = Some st0 ->
+  add_documents false st0 ds = (st, os) -> Forall (eq AddOk) os -> NoDup (map d_id ds) ->
+  (forall d cj, In d ds -> In cj (d_conjs d) -> NoDup (map fst cj)) ->
+  (pol <> PolSkip \/ forall d cj, In d ds -> In cj (d_conjs d) ->
+       HoldersBuildInv.conj_ok' parsers (HoldersBuildInv.cfg_of cfgl) cj = true) ->
+  (forall d cj, In d ds -> In cj (d_conjs d) -> HoldersBuildInv.conj_rwf thr (HoldersBuildInv.cfg_of cfgl) cj) ->
+  NoDup (map fst q) ->
+  (forall f v, In (f, v) q -> IndexCorrectHolders.qv_ok (HoldersBuildInv.cfg_of cfgl f) (parsers f) v = true) ->
+  (kind = IKGroups -> forall f v, In (f, v) q -> HoldersBuildInv.cfg_of cfgl f = CAc -> IndexCorrectHolders.nil_slice_wf v) ->
+  exists hits, retrieve_hits (build_index st) q = ROk hits /\ NoDup (map snd hits) /\
+    (forall d k cj cid, IndexCorrect.has_conj ds d k cj cid ->
+       (In cid (map snd hits) <-> IndexCorrectHolders.conj_sat' parsers (HoldersBuildInv.cfg_of cfgl) q cj = true)) /\
+    (forall h, In h hits -> fst h = Gen.IdsGen.ConjID_DocID (snd h) /\ exists d k cj, IndexCorrect.has_conj ds d k cj (snd h)).
+Proof. exact IndexCorrectHolders.index_correct_holders. Qed.
+
+Theorem C06_range_hit_rule : forall p v e,
+  IndexCorrectHolders.ehit CRange p v e = true <->
+  exists xs x, parse_integers true v = POk xs /\ In x xs /\ IndexCorrectHolders.range_hit e x = true.
+Proof. exact IndexCorrectHolders.ehit_range_iff. Qed.
+Theorem C06_range_hit_rule_in : forall e x, e_op e = OpEQ ->
+  (IndexCorrectHolders.range_hit e x = true <-> exists zs, parse_integers true (e_val e) = POk zs /\ In x zs).
+Proof. exact IndexCorrectHolders.range_hit_in. Qed.
+Theorem C06_range_hit_rule_op : forall e x, e_op e = OpGT \/ e_op e = OpLT \/ e_op e = OpBetween ->
+  (IndexCorrectHolders.range_hit e x = true <->
+   exists l r, parse_range (e_op e) true (e_val e) = POk (l, r) /\ l <= x < r).
+Proof. exact IndexCorrectHolders.range_hit_op. Qed.
+
+(* the hypotheses of the end-to-end theorem are met by a concrete builder with a pattern and a range field,
+   three documents (kept interval, expanded between, `in`, include and exclude keywords) and two assignments,
+   for which the concrete retrievals return [12] and [10] *)
+Example C06_end_to_end_nonvacuous :
+  NonVacuous.ex2_ok IKGroups = true /\ NonVacuous.ex2_ok ICompact = true /\
+  (forall d cj, In d NonVacuous.ex2_docs -> In cj (d_conjs d) -> HoldersBuildInv.conj_rwf 256 (HoldersBuildInv.cfg_of NonVacuous.ex2_cfg) cj).
+Proof. split; [exact NonVacuous.holders_hypotheses_met_kgroups | split; [exact NonVacuous.holders_hypotheses_met_compact | exact NonVacuous.ex2_ranges_inside_int64]]. Qed.
+
 Example C06_nonvacuous :
   map (fun p => (pl p, pr p, pe p)) (run (-1000) 1000 [(0, 10, 1%N); (5, 20, 2%N); (-1000, 7, 3%N)]) =
   [(-1000, 0, [3%N]); (0, 5, [1%N; 3%N]); (5, 7, [1%N; 2%N; 3%N]); (7, 10, [1%N; 2%N]); (10, 20, [2%N]); (20, 1000, [])].
@@ -44,3 +85,7 @@ Print Assumptions C06_any_threshold_exact.
 Print Assumptions C06_gt_interval.
 Print Assumptions C06_lt_interval.
 Print Assumptions C06_between_interval.
+Print Assumptions C06_any_container_index_exact.
+Print Assumptions C06_range_hit_rule.
+Print Assumptions C06_range_hit_rule_in.
+Print Assumptions C06_range_hit_rule_op.
